@@ -8,21 +8,29 @@
    closes by the next NextWriter / WriteMessage, failing operations, the state after a close
    frame.
 
-   Main results (all closed under the global context):
+   Main results (all closed under the global context), for EVERY write program (no condition on
+   how control-type writers are closed):
    - [wire_events_and_boundary]          the equation, plus: no close sent and nothing left open
                                          (abstract side) => the wire ends at a message boundary
    - [wire_events_are_the_sent_messages] the equation
    - [wire_wellformed_and_events]        combined with the first half (WriterWireP)
-   - [wire_events_data_next]             program-level sufficient condition for the side condition
+   - [abstract_flags_exact]              a_dead / a_open of the abstract run against werr / cur of
+                                         the model
+   - [wire_events_data_next]             (former corollary for NextWriter on data types only; now
+                                         an instance of the equation)
    - [ctl_writer_overflow_then_implicit_close], [ctl_writer_too_long_then_implicit_close],
-     [empty_buffer_needed]: the side conditions are necessary (concrete runs).
+     [ctl_writer_implicit_close_sends], [close_writer_implicit_close]: the corner cases of
+     control-type writers (a failed Write abandons the message; the implicit close drops a
+     control message longer than 125 bytes; an implicit close that sends a close message closes
+     the connection), model and abstract writer agree;
+   - [empty_buffer_needed]: the remaining side condition is necessary (concrete run).
 
-   Side conditions beyond those of WriterWireP.wire_wellformed:
+   Side condition beyond those of WriterWireP.wire_wellformed:
    - [14 < w_bufsize c]: the write buffer has room for at least one payload byte (otherwise the
-     copy loop of Write cannot make progress);
-   - [ctl_writers_closed]: a writer obtained from NextWriter FOR A CONTROL TYPE is closed by an
-     explicit Close, never by the implicit close of the next NextWriter / WriteMessage (stated on
-     the abstract run: at such a call the abstract writer has no control-type message open).
+     copy loop of Write cannot make progress).
+   The former side condition [ctl_writers_closed] (a writer obtained from NextWriter for a
+   control type is closed by an explicit Close) is no longer needed: Spec/WriterSpec.v now
+   describes a failed Write and the implicit close exactly.  Its definition is kept below.
 
    Structure: live primitives (conn_write, flushFrame: the exact frame), the copy loops, the
    abstract writer by projections, the ghost invariant [GInv], one step, programs. *)
@@ -511,49 +519,55 @@ Qed.
 (* the abstract writer, by projections                                                        *)
 (* ------------------------------------------------------------------------------------------ *)
 Definition ntrN (r:N) : Prop := (r =? 6) || (r =? 7) = false.
+(* the implicit close of an open message: a control-type message that is too long is dropped *)
+Definition adrop (t:N) (d:bytes) : bool := (8 <=? t) && (125 <? blen d).
 Definition aflush_out (a:ast) : list sent :=
   match a_open a with
-  | Some (t, c, d) => [{| s_ty := t; s_comp := c; s_data := d; s_complete := true |}]
+  | Some (t, c, d) => if adrop t d then [] else [{| s_ty := t; s_comp := c; s_data := d; s_complete := true |}]
   | None => []
   end.
+(* ... and one that sends a close message closes the connection for writing *)
+Definition aflush_closes (a:ast) : bool :=
+  match a_open a with Some (t, _, d) => negb (adrop t d) && (t =? 8) | None => false end.
 Definition open_not_close (a:ast) : Prop :=
   match a_open a with Some (t, _, _) => (t =? 8) = false | None => True end.
 
-Lemma astep_msg a ty d r : a_dead a = false -> ntrN r -> open_not_close a ->
+Lemma astep_msg a ty d r : a_dead a = false -> ntrN r ->
   let a' := astep false a (AMessage ty d) r in
   a_open a' = None /\
   a_out a' = (a_out a ++ aflush_out a) ++ (if r =? 0 then [the_sent ty d] else []) /\
-  a_dead a' = (r =? 0) && (ty =? 8).
+  a_dead a' = aflush_closes a || ((r =? 0) && (ty =? 8)).
 Proof.
-  destruct a as [ao ac out dd]. unfold ntrN, open_not_close, aflush_out. cbn [a_open a_comp a_out a_dead].
-  intros -> HR HO. unfold astep. rewrite HR. cbn [a_open a_comp a_out a_dead andb].
+  destruct a as [ao ac out dd]. unfold ntrN, aflush_out, aflush_closes, adrop. cbn [a_open a_comp a_out a_dead].
+  intros -> HR. unfold astep. rewrite HR. cbn [a_open a_comp a_out a_dead andb].
   destruct ao as [[[t cf] d0]|]; cbn [a_open a_comp a_out a_dead andb].
-  - rewrite HO, andb_false_r. cbn [a_open a_comp a_out a_dead andb].
-    destruct (r =? 0); cbn [andb]; [destruct (ty =? 8)|]; cbn [a_open a_comp a_out a_dead];
-      rewrite ?app_nil_r; auto.
-  - destruct (r =? 0); cbn [andb]; [destruct (ty =? 8)|]; cbn [a_open a_comp a_out a_dead];
+  - destruct ((8 <=? t) && (125 <? blen d0)); cbn [negb a_open a_comp a_out a_dead andb orb];
+      destruct (r =? 0); cbn [andb orb]; destruct (t =? 8); cbn [andb orb]; try destruct (ty =? 8);
+      cbn [a_open a_comp a_out a_dead andb orb]; rewrite ?app_nil_r; auto.
+  - destruct (r =? 0); cbn [andb orb]; [destruct (ty =? 8)|]; cbn [a_open a_comp a_out a_dead];
       rewrite ?app_nil_r; auto.
 Qed.
 
-Lemma astep_next a ty r : a_dead a = false -> ntrN r -> open_not_close a ->
+Lemma astep_next a ty r : a_dead a = false -> ntrN r ->
   let a' := astep false a (ANext ty) r in
   a_open a' = (if r =? 0 then Some (ty, false, []) else None) /\
   a_out a' = a_out a ++ aflush_out a /\
-  a_dead a' = false.
+  a_dead a' = aflush_closes a.
 Proof.
-  destruct a as [ao ac out dd]. unfold ntrN, open_not_close, aflush_out. cbn [a_open a_comp a_out a_dead].
-  intros -> HR HO. unfold astep. rewrite HR. cbn [a_open a_comp a_out a_dead andb].
+  destruct a as [ao ac out dd]. unfold ntrN, aflush_out, aflush_closes, adrop. cbn [a_open a_comp a_out a_dead].
+  intros -> HR. unfold astep. rewrite HR. cbn [a_open a_comp a_out a_dead andb].
   destruct ao as [[[t cf] d0]|]; cbn [a_open a_comp a_out a_dead andb].
-  - rewrite HO, andb_false_r. cbn [a_open a_comp a_out a_dead andb].
-    destruct (r =? 0); cbn [a_open a_comp a_out a_dead]; rewrite ?app_nil_r; auto.
+  - destruct ((8 <=? t) && (125 <? blen d0)); cbn [negb a_open a_comp a_out a_dead andb];
+      destruct (r =? 0); cbn [a_open a_comp a_out a_dead]; rewrite ?app_nil_r; auto.
   - destruct (r =? 0); cbn [a_open a_comp a_out a_dead]; rewrite ?app_nil_r; auto.
 Qed.
 
+(* a Write that fails abandons the message *)
 Lemma astep_write a d r : ntrN r ->
   let a' := astep false a (AWrite d) r in
   a_out a' = a_out a /\ a_dead a' = a_dead a /\
   a_open a' = match a_open a with
-              | Some (t, c, acc) => if r =? 0 then Some (t, c, acc ++ d) else Some (t, c, acc)
+              | Some (t, c, acc) => if r =? 0 then Some (t, c, acc ++ d) else None
               | None => None
               end.
 Proof.
@@ -561,13 +575,20 @@ Proof.
   cbn [a_open a_comp a_out a_dead]. destruct ao as [[[t cf] d0]|]; [destruct (r =? 0)|]; cbn [a_open a_comp a_out a_dead]; auto.
 Qed.
 
+(* an explicit Close that reports success sent the message as it stands *)
+Definition aopen_out (a:ast) : list sent :=
+  match a_open a with
+  | Some (t, c, d) => [{| s_ty := t; s_comp := c; s_data := d; s_complete := true |}]
+  | None => []
+  end.
+
 Lemma astep_close a r : ntrN r ->
   let a' := astep false a AClose r in
   a_open a' = None /\
-  a_out a' = a_out a ++ (if r =? 0 then aflush_out a else []) /\
+  a_out a' = a_out a ++ (if r =? 0 then aopen_out a else []) /\
   a_dead a' = a_dead a || ((r =? 0) && match a_open a with Some (t, _, _) => t =? 8 | None => false end).
 Proof.
-  destruct a as [ao ac out dd]. unfold ntrN, aflush_out. intros HR. unfold astep. rewrite HR.
+  destruct a as [ao ac out dd]. unfold ntrN, aopen_out. intros HR. unfold astep. rewrite HR.
   cbn [a_open a_comp a_out a_dead]. destruct ao as [[[t cf] d0]|]; cbn [a_open a_comp a_out a_dead].
   - destruct (r =? 0); cbn [andb a_open a_comp a_out a_dead]; [destruct (t =? 8)|];
       cbn [a_open a_comp a_out a_dead]; rewrite ?app_nil_r, ?orb_true_r, ?orb_false_r; auto.
@@ -636,8 +657,7 @@ Definition Live (c:wcfg) (s:wst) (ae:eacc) (a:ast) : Prop :=
   match cur s with
   | Some m => mwok c m /\ Writer.app s = Some (m_id m) /\
               exists t acc, a_open a = Some (t, false, acc) /\ vty t /\ Open t acc ae m
-  | None => ae = None /\
-            (a_open a = None \/ exists t cf acc, a_open a = Some (t, cf, acc) /\ is_control t = true)
+  | None => ae = None /\ a_open a = None
   end.
 
 Definition Mode (c:wcfg) (s:wst) (ae:eacc) (a:ast) : Prop :=
@@ -680,8 +700,9 @@ Proof.
   intros HC HO. unfold Live. rewrite (WriterStateP.core_cur _ _ HC), (WriterStateP.core_app _ _ HC), HO. auto.
 Qed.
 
-(* side condition: a control-type writer obtained from NextWriter is never left to the implicit
-   close of the next NextWriter / WriteMessage *)
+(* the former side condition (no longer needed by the theorems below, kept for reference): a
+   control-type writer obtained from NextWriter is never left to the implicit close of the next
+   NextWriter / WriteMessage *)
 Definition open_is_data (a:ast) : Prop :=
   match a_open a with Some (t, _, _) => is_control t = false | None => True end.
 Definition implicit_ok (a:ast) (o:aop) : Prop :=
@@ -779,43 +800,42 @@ Qed.
 (* ------------------------------------------------------------------------------------------ *)
 (* implicit close, beginMessage, NextWriter                                                   *)
 (* ------------------------------------------------------------------------------------------ *)
-Lemma Live_open_data c s ae a m : cur s = Some m -> Live c s ae a -> open_is_data a ->
-  mwok c m /\ Writer.app s = Some (m_id m) /\
-  exists t acc, a_open a = Some (t, false, acc) /\ vty t /\ Open t acc ae m /\ is_control_ty t = false /\ (t =? 8) = false.
-Proof.
-  unfold Live, open_is_data. intros -> (M & A & t & acc & HO & V & O). rewrite HO. intros X.
-  split; [exact M|]. split; [exact A|]. exists t, acc. split; [reflexivity|]. split; [exact V|]. split; [exact O|].
-  destruct V as [->|[->|[->|[->| ->]]]]; cbn in X; try discriminate; split; reflexivity.
-Qed.
+Lemma vty_ctl_leb t : vty t -> is_control_ty t = (8 <=? t).
+Proof. intros [->|[->|[->|[->| ->]]]]; reflexivity. Qed.
 
-Lemma Live_none_data c s ae a : cur s = None -> Live c s ae a -> open_is_data a -> ae = None /\ a_open a = None.
-Proof.
-  unfold Live, open_is_data. intros -> (A & [B|(t & cf & acc & B & C)]); [auto|].
-  rewrite B. intros X. congruence.
-Qed.
-
-Lemma close_current_live c ic s ae a : capok c -> Pst s -> werr s = None -> Live c s ae a -> open_is_data a ->
+(* the implicit close: what it sends is what the abstract writer's flush emits; an invalid
+   control message is dropped (the error of the implicit Close is discarded); a close message
+   leaves the connection closed for writing *)
+Lemma close_current_live c ic s ae a : capok c -> Pst s -> werr s = None -> Live c s ae a ->
   let s1 := close_current c ic s in
-  Pst s1 /\ werr s1 = None /\ cur s1 = None /\
+  Pst s1 /\ werr s1 = (if aflush_closes a then Some WCloseSent else None) /\ cur s1 = None /\
   exists fr evs, Forall wf_frame fr /\ wire s1 = wire s ++ encode_frames fr /\
     events_from ae fr = (evs, None) /\ map sent_of_event evs = aflush_out a.
 Proof.
-  intros HCap HP HE HL HD. unfold close_current. destruct (cur s) as [m|] eqn:HC.
-  - destruct (Live_open_data c s ae a m HC HL HD) as (M & A & t & acc & HO & V & O & ET & E8).
+  intros HCap HP HE HL. unfold close_current. unfold Live in HL. destruct (cur s) as [m|] eqn:HC.
+  - destruct HL as (M & A & t & acc & HO & V & O).
     rewrite (p_cf s HP). unfold mw_close. rewrite HC.
     destruct (flush_frame c true [] m s) as [e1 s1] eqn:EF. cbn [snd].
     assert (Hs : small []) by (unfold small; cbn; lia).
     destruct (flush_final_open c [] m s e1 s1 t acc ae HCap HP HE M V O (fun _ => eq_refl) Hs EF) as (P1 & A1 & C1 & R).
-    rewrite ET in R. cbn [andb] in R. rewrite E8 in R.
-    destruct R as (-> & E1 & f & ev & Fwf & FW & FEv & FS).
-    cbv zeta. split; [destruct P1; constructor; solve [assumption|reflexivity]|]. split; [exact E1|]. split; [reflexivity|].
-    exists [f], [ev]. split; [constructor; [exact Fwf|constructor]|].
-    split. { change (wire s1 = wire s ++ encode_frames [f]). rewrite FW. cbn [encode_frames flat_map]. rewrite app_nil_r. reflexivity. }
-    split; [exact FEv|]. cbn [map]. rewrite FS, app_nil_r. unfold aflush_out. rewrite HO. reflexivity.
-  - destruct (Live_none_data c s ae a HC HL HD) as [-> HO].
+    rewrite app_nil_r, (vty_ctl_leb t V) in R.
+    unfold aflush_out, aflush_closes, adrop. rewrite HO.
+    cbv zeta. split; [destruct P1; constructor; solve [assumption|reflexivity]|].
+    destruct ((8 <=? t) && (125 <? blen acc)); cbn [negb andb].
+    + destruct R as (-> & RW & RE & ->).
+      split; [exact RE|]. split; [reflexivity|].
+      exists [], []. split; [constructor|].
+      split. { change (wire s1 = wire s ++ encode_frames []). rewrite RW. cbn [encode_frames flat_map]. rewrite app_nil_r. reflexivity. }
+      split; reflexivity.
+    + destruct R as (-> & E1 & f & ev & Fwf & FW & FEv & FS).
+      split; [exact E1|]. split; [reflexivity|].
+      exists [f], [ev]. split; [constructor; [exact Fwf|constructor]|].
+      split. { change (wire s1 = wire s ++ encode_frames [f]). rewrite FW. cbn [encode_frames flat_map]. rewrite app_nil_r. reflexivity. }
+      split; [exact FEv|]. cbn [map]. rewrite FS. reflexivity.
+  - destruct HL as [-> HO]. unfold aflush_out, aflush_closes. rewrite HO.
     cbv zeta. split; [exact HP|]. split; [exact HE|]. split; [exact HC|].
     exists [], []. split; [constructor|]. split; [cbn [encode_frames flat_map]; rewrite app_nil_r; reflexivity|].
-    split; [reflexivity|]. unfold aflush_out. rewrite HO. reflexivity.
+    split; reflexivity.
 Qed.
 
 Lemma valid_vty ty : negb (is_control_ty ty) && negb (is_data_ty ty) = false -> vty ty.
@@ -827,19 +847,21 @@ Proof.
   destruct (ty =? 2) eqn:E5; [lia|]. cbn in H. discriminate.
 Qed.
 
-Lemma begin_message_live c ty ic s ae a e s' : capok c -> Pst s -> werr s = None -> Live c s ae a -> open_is_data a ->
+Lemma begin_message_live c ty ic s ae a e s' : capok c -> Pst s -> werr s = None -> Live c s ae a ->
   begin_message c ty ic s = (e, s') ->
-  Pst s' /\ werr s' = None /\ cur s' = None /\
+  Pst s' /\ werr s' = (if aflush_closes a then Some WCloseSent else None) /\ cur s' = None /\
   (exists fr evs, Forall wf_frame fr /\ wire s' = wire s ++ encode_frames fr /\
     events_from ae fr = (evs, None) /\ map sent_of_event evs = aflush_out a) /\
-  (e = Some WBadOpCode \/ (e = None /\ vty ty)).
+  (e = Some WBadOpCode \/ (aflush_closes a = true /\ e = Some WCloseSent) \/
+   (aflush_closes a = false /\ e = None /\ vty ty)).
 Proof.
-  intros HCap HP HE HL HD H. unfold begin_message in H.
-  destruct (close_current_live c ic s ae a HCap HP HE HL HD) as (P1 & E1 & C1 & FR).
+  intros HCap HP HE HL H. unfold begin_message in H.
+  destruct (close_current_live c ic s ae a HCap HP HE HL) as (P1 & E1 & C1 & FR).
   set (s1 := close_current c ic s) in *. clearbody s1.
   destruct (negb (is_control_ty ty) && negb (is_data_ty ty)) eqn:ET.
   { inversion H; subst e s'. auto 10. }
-  rewrite E1 in H.
+  rewrite E1 in H. destruct (aflush_closes a) eqn:EC.
+  { inversion H; subst e s'. auto 10. }
   set (s2 := if held s1 then s1 else log TGet (s1 <| held := true |>)) in H.
   assert (X : Pst s2 /\ werr s2 = None /\ cur s2 = None /\ wire s2 = wire s1).
   { subst s2. destruct (held s1); [auto|].
@@ -847,23 +869,28 @@ Proof.
     rewrite wire_log. cbn [pay]. rewrite app_nil_r. reflexivity. }
   clearbody s2. inversion H; subst e s'. clear H.
   destruct X as (X1 & X2 & X3 & X4). split; [exact X1|]. split; [exact X2|]. split; [exact X3|].
-  split; [rewrite X4; exact FR|]. right. split; [reflexivity|apply valid_vty; exact ET].
+  split; [rewrite X4; exact FR|]. right. right. split; [reflexivity|]. split; [reflexivity|apply valid_vty; exact ET].
 Qed.
 
 Lemma next_writer_live c ty ic s ae a e s' : capok c -> w_negotiated c = false ->
-  Pst s -> werr s = None -> Live c s ae a -> open_is_data a ->
+  Pst s -> werr s = None -> Live c s ae a ->
   next_writer c ty ic s = (e, s') ->
-  Pst s' /\ werr s' = None /\
+  Pst s' /\ werr s' = (if aflush_closes a then Some WCloseSent else None) /\
   (exists fr evs, Forall wf_frame fr /\ wire s' = wire s ++ encode_frames fr /\
     events_from ae fr = (evs, None) /\ map sent_of_event evs = aflush_out a) /\
-  ((e = Some WBadOpCode /\ cur s' = None) \/
-   (e = None /\ vty ty /\ exists m0, cur s' = Some m0 /\ mwok c m0 /\ m_buf m0 = [] /\ m_ftype m0 = ty /\
-                                    Writer.app s' = Some (m_id m0))).
+  (((exists e0, e = Some e0 /\ ntr e0) /\ cur s' = None) \/
+   (aflush_closes a = false /\ e = None /\ vty ty /\
+    exists m0, cur s' = Some m0 /\ mwok c m0 /\ m_buf m0 = [] /\ m_ftype m0 = ty /\
+               Writer.app s' = Some (m_id m0))).
 Proof.
-  intros HCap HN HP HE HL HD H. unfold next_writer in H.
+  intros HCap HN HP HE HL H. unfold next_writer in H.
   destruct (begin_message c ty ic s) as [e1 s1] eqn:EB.
-  destruct (begin_message_live c ty ic s ae a e1 s1 HCap HP HE HL HD EB) as (P1 & E1 & C1 & FR & [->|(-> & V)]).
-  { inversion H; subst e s'. auto 10. }
+  destruct (begin_message_live c ty ic s ae a e1 s1 HCap HP HE HL EB) as (P1 & E1 & C1 & FR & [->|[(EC & ->)|(EC & -> & V)]]).
+  { inversion H; subst e s'. split; [exact P1|]. split; [exact E1|]. split; [exact FR|]. left.
+    split; [|exact C1]. eexists. split; [reflexivity|exact I]. }
+  { inversion H; subst e s'. split; [exact P1|]. split; [exact E1|]. split; [exact FR|]. left.
+    split; [|exact C1]. eexists. split; [reflexivity|exact I]. }
+  rewrite EC in E1 |- *.
   unfold new_mw in H. cbv beta iota zeta in H. rewrite HN in H. cbn [andb] in H.
   match type of H with (None, ?x) = _ => set (s2 := x) in H end.
   assert (X : Pst s2 /\ werr s2 = None /\ wire s2 = wire s1) by
@@ -873,7 +900,7 @@ Proof.
     split; [reflexivity|]. split; [reflexivity|]. cbn. lia. }
   clearbody s2. inversion H; subst e s'. clear H. destruct X as (X1 & X2 & X3).
   split; [exact X1|]. split; [exact X2|]. split; [rewrite X3; exact FR|].
-  right. split; [reflexivity|]. split; [exact V|]. exact Y.
+  right. split; [reflexivity|]. split; [reflexivity|]. split; [exact V|]. exact Y.
 Qed.
 
 (* ------------------------------------------------------------------------------------------ *)
@@ -884,23 +911,29 @@ Definition msg_sent (e:option werror) (ty:N) (d:bytes) : list sent :=
 
 Lemma write_message_live c ty d ic wc cc s ae a e s' :
   capok c -> 0 < cap c -> w_negotiated c = false -> small d ->
-  Pst s -> werr s = None -> Live c s ae a -> open_is_data a ->
+  Pst s -> werr s = None -> Live c s ae a ->
   write_message c ty d ic wc cc s = (e, s') ->
   Pst s' /\ cur s' = None /\ rntr e /\
-  werr s' = (match e with None => if ty =? 8 then Some WCloseSent else None | Some _ => None end) /\
+  werr s' = (if aflush_closes a || match e with None => ty =? 8 | Some _ => false end
+             then Some WCloseSent else None) /\
   exists fr evs, Forall wf_frame fr /\ wire s' = wire s ++ encode_frames fr /\
     events_from ae fr = (evs, None) /\ map sent_of_event evs = aflush_out a ++ msg_sent e ty d.
 Proof.
-  intros HCap HPos HN HS HP HE HL HD H. unfold write_message in H. rewrite HN in H.
+  intros HCap HPos HN HS HP HE HL H. unfold write_message in H. rewrite HN in H.
   cbn [negb orb] in H. rewrite andb_true_r in H.
   assert (Hs0 : small []) by (unfold small; cbn; lia).
   destruct (w_server c) eqn:ES.
   - (* the server fast path *)
     destruct (begin_message c ty ic s) as [e1 s1] eqn:EB.
-    destruct (begin_message_live c ty ic s ae a e1 s1 HCap HP HE HL HD EB)
-      as (P1 & E1 & C1 & (fr & evs & Fwf & FW & FEv & FS) & [->|(-> & V)]).
-    { inversion H; subst e s'. split; [exact P1|]. split; [exact C1|]. split; [exact I|]. split; [exact E1|].
+    destruct (begin_message_live c ty ic s ae a e1 s1 HCap HP HE HL EB)
+      as (P1 & E1 & C1 & (fr & evs & Fwf & FW & FEv & FS) & [->|[(EC & ->)|(EC & -> & V)]]).
+    { inversion H; subst e s'. split; [exact P1|]. split; [exact C1|]. split; [exact I|].
+      split; [rewrite orb_false_r; exact E1|].
       exists fr, evs. cbn [msg_sent]. rewrite app_nil_r. auto. }
+    { inversion H; subst e s'. split; [exact P1|]. split; [exact C1|]. split; [exact I|].
+      split; [rewrite orb_false_r; exact E1|].
+      exists fr, evs. cbn [msg_sent]. rewrite app_nil_r. auto. }
+    rewrite EC in E1 |- *. cbn [orb].
     unfold new_mw in H. cbv beta iota zeta in H.
     set (n := N.min (cap c) (blen d)) in *.
     set (m := {| m_id := nextid s1; m_buf := []; m_ftype := ty; m_compress := false; m_err := None |}
@@ -927,10 +960,12 @@ Proof.
       rewrite map_app, FS. cbn [map msg_sent]. rewrite RS. reflexivity.
   - (* NextWriter, Write, Close *)
     destruct (next_writer c ty ic s) as [e1 s1] eqn:EN.
-    destruct (next_writer_live c ty ic s ae a e1 s1 HCap HN HP HE HL HD EN)
-      as (P1 & E1 & (fr & evs & Fwf & FW & FEv & FS) & [(-> & C1)|(-> & V & m0 & C1 & M0 & B0 & T0 & A0)]).
-    { inversion H; subst e s'. split; [exact P1|]. split; [exact C1|]. split; [exact I|]. split; [exact E1|].
+    destruct (next_writer_live c ty ic s ae a e1 s1 HCap HN HP HE HL EN)
+      as (P1 & E1 & (fr & evs & Fwf & FW & FEv & FS) & [((e0 & -> & Hn0) & C1)|(EC & -> & V & m0 & C1 & M0 & B0 & T0 & A0)]).
+    { inversion H; subst e s'. split; [exact P1|]. split; [exact C1|]. split; [exact Hn0|].
+      split; [rewrite orb_false_r; exact E1|].
       exists fr, evs. cbn [msg_sent]. rewrite app_nil_r. auto. }
+    rewrite EC in E1 |- *. cbn [orb].
     unfold app_write in H. rewrite A0, (p_af s1 P1), (is_cur_self s1 m0 C1) in H.
     destruct (mw_write c d s1) as [e2 s2] eqn:EW.
     assert (O : Open ty [] None m0) by (left; auto).
@@ -1062,14 +1097,14 @@ Proof.
       rewrite HO in Q3. cbn [e_werr N.eqb] in Q3.
       exists fs. apply (GInv_same c s fs a s' _ G C2 Q1).
       apply Mode_intro_live; [exact E'|congruence|exact P'|]. unfold Live. rewrite C1.
-      split; [exact C3|]. right. exists t, false, acc. split; [exact Q3|]. apply (vty_ctl t V ET).
+      split; [exact C3|exact Q3].
   - destruct (H1 eq_refl) as (e0 & -> & Hn & ->).
     destruct (astep_write a d (e_werr (Some e0)) (e_werr_ntr (Some e0) Hn)) as (Q1 & Q2 & Q3).
     rewrite e_werr_some in Q3.
     exists fs. apply (GInv_same c s fs a s _ G eq_refl Q1).
     apply Mode_intro_live; [exact HE|congruence|exact P|].
     apply (Live_same c s s _ a _ eq_refl eq_refl); [|exact L].
-    rewrite Q3. destruct (a_open a) as [[[t cf] acc]|]; reflexivity.
+    unfold Live in L. rewrite HC in L. destruct L as [_ L2]. rewrite Q3, L2. reflexivity.
 Qed.
 
 Lemma close_step c cc s fs a e s' : capok c -> GInv c s fs a -> werr s = None ->
@@ -1094,7 +1129,7 @@ Proof.
     + destruct R as (-> & RE & f & ev & Rwf & RW & REv & RS).
       destruct (astep_close a (e_werr None) (e_werr_ntr None I)) as (Q1 & Q2 & Q3).
       cbn [e_werr N.eqb andb] in Q2, Q3. rewrite D, HO in Q3. cbn [orb] in Q3.
-      unfold aflush_out in Q2. rewrite HO in Q2.
+      unfold aopen_out in Q2. rewrite HO in Q2.
       exists (fs ++ [f]). apply (GInv_ext c s fs a s' _ [f] [ev] None G).
       * rewrite RW. cbn [encode_frames flat_map]. rewrite app_nil_r. reflexivity.
       * constructor; [exact Rwf|constructor].
@@ -1110,49 +1145,48 @@ Proof.
 Qed.
 
 Lemma next_step c ty ic s fs a e s' : capok c -> w_negotiated c = false -> GInv c s fs a -> werr s = None ->
-  open_is_data a ->
   next_writer c ty ic s = (e, s') ->
   exists fs', GInv c s' fs' (astep false a (ANext ty) (e_werr e)).
 Proof.
-  intros HCap HN G HE HD H.
+  intros HCap HN G HE H.
   destruct (Mode_live c s _ a HE (g_mode _ _ _ _ G)) as (D & P & L).
-  destruct (next_writer_live c ty ic s (acc_of fs) a e s' HCap HN P HE L HD H)
+  destruct (next_writer_live c ty ic s (acc_of fs) a e s' HCap HN P HE L H)
     as (P1 & E1 & (fr & evs & Fwf & FW & FEv & FS) & R).
-  assert (Hn : rntr e) by (destruct R as [(-> & _)|(-> & _)]; exact I).
-  destruct (astep_next a ty (e_werr e) D (e_werr_ntr e Hn) (open_is_data_nc a HD)) as (Q1 & Q2 & Q3).
+  assert (Hn : rntr e) by (destruct R as [((e0 & -> & Hn0) & _)|(_ & -> & _)]; [exact Hn0|exact I]).
+  destruct (astep_next a ty (e_werr e) D (e_werr_ntr e Hn)) as (Q1 & Q2 & Q3).
   exists (fs ++ fr). apply (GInv_ext c s fs a s' _ fr evs None G FW Fwf FEv).
   - rewrite FS. exact Q2.
-  - apply Mode_intro_live; [exact E1|exact Q3|exact P1|].
-    destruct R as [(-> & C1)|(-> & V & m0 & C1 & M0 & B0 & T0 & A0)].
-    + apply Live_closed; [exact C1|]. rewrite Q1. reflexivity.
+  - apply (Mode_intro_close c s' _ _ (aflush_closes a) E1 Q3 P1).
+    destruct R as [((e0 & -> & Hn0) & C1)|(_ & -> & V & m0 & C1 & M0 & B0 & T0 & A0)].
+    + apply Live_closed; [exact C1|]. rewrite Q1, e_werr_some. reflexivity.
     + unfold Live. rewrite C1. split; [exact M0|]. split; [exact A0|]. exists ty, [].
       split; [rewrite Q1; reflexivity|]. split; [exact V|]. left. auto.
 Qed.
 
 Lemma message_step c ty d ic wc cc s fs a e s' : capok c -> 0 < cap c -> w_negotiated c = false -> small d ->
-  GInv c s fs a -> werr s = None -> open_is_data a ->
+  GInv c s fs a -> werr s = None ->
   write_message c ty d ic wc cc s = (e, s') ->
   exists fs', GInv c s' fs' (astep false a (AMessage ty d) (e_werr e)).
 Proof.
-  intros HCap HPos HN HS G HE HD H.
+  intros HCap HPos HN HS G HE H.
   destruct (Mode_live c s _ a HE (g_mode _ _ _ _ G)) as (D & P & L).
-  destruct (write_message_live c ty d ic wc cc s (acc_of fs) a e s' HCap HPos HN HS P HE L HD H)
+  destruct (write_message_live c ty d ic wc cc s (acc_of fs) a e s' HCap HPos HN HS P HE L H)
     as (P1 & C1 & Hn & E1 & fr & evs & Fwf & FW & FEv & FS).
-  destruct (astep_msg a ty d (e_werr e) D (e_werr_ntr e Hn) (open_is_data_nc a HD)) as (Q1 & Q2 & Q3).
+  destruct (astep_msg a ty d (e_werr e) D (e_werr_ntr e Hn)) as (Q1 & Q2 & Q3).
   rewrite e_werr_zero in Q2, Q3.
   exists (fs ++ fr). apply (GInv_ext c s fs a s' _ fr evs None G FW Fwf FEv).
   - rewrite FS, Q2, app_assoc. destruct e; reflexivity.
-  - destruct e as [e|].
-    + cbn [andb] in Q3. apply Mode_intro_live; [exact E1|exact Q3|exact P1|]. apply Live_closed; assumption.
-    + cbn [andb] in Q3. apply (Mode_intro_close c s' _ _ (ty =? 8) E1 Q3 P1). apply Live_closed; assumption.
+  - destruct e as [e|]; cbn [andb] in Q3.
+    + apply (Mode_intro_close c s' _ _ _ E1 Q3 P1). apply Live_closed; assumption.
+    + apply (Mode_intro_close c s' _ _ _ E1 Q3 P1). apply Live_closed; assumption.
 Qed.
 
 Lemma wstep_G c s fs a o :
   capok c -> 0 < cap c -> w_negotiated c = false -> op_small o -> op_not_prepared o ->
-  GInv c s fs a -> implicit_ok a (wop_aop o) ->
+  GInv c s fs a ->
   exists fs', GInv c (snd (wstep c s o)) fs' (astep false a (wop_aop o) (e_werr_N (fst (wstep c s o)))).
 Proof.
-  intros HCap HPos HN HS HNP G HI. unfold e_werr_N.
+  intros HCap HPos HN HS HNP G. unfold e_werr_N.
   destruct (werr s) as [x|] eqn:HE.
   - (* a close frame went out: nothing more is written, every sending call fails *)
     assert (Dd : dead s) by (unfold dead; congruence).
@@ -1166,11 +1200,11 @@ Proof.
     exists fs. apply (GInv_same c s fs a _ _ G F2 Q2). unfold Mode. rewrite F1, HE. exact Q1.
   - destruct (Mode_live c s _ a HE (g_mode _ _ _ _ G)) as (D & P & L).
     destruct o as [ty d ic wc cc|ty ic|d wc|d wc|ch|cc|ty d dl|dl|b|l|ty fr];
-      cbn [wstep wop_aop op_small op_not_prepared implicit_ok] in *.
+      cbn [wstep wop_aop op_small op_not_prepared] in *.
     + destruct (write_message c ty d ic wc cc s) as [e s'] eqn:E. cbn [fst snd].
-      destruct HS as (S1 & _). apply (message_step c ty d ic wc cc s fs a e s' HCap HPos HN S1 G HE (HI D) E).
+      destruct HS as (S1 & _). apply (message_step c ty d ic wc cc s fs a e s' HCap HPos HN S1 G HE E).
     + destruct (next_writer c ty ic s) as [e s'] eqn:E. cbn [fst snd].
-      apply (next_step c ty ic s fs a e s' HCap HN G HE (HI D) E).
+      apply (next_step c ty ic s fs a e s' HCap HN G HE E).
     + destruct (app_write c false d wc s) as [e s'] eqn:E. cbn [fst snd]. destruct HS as [S1 _].
       apply (write_step c s fs a d e s' G HE).
       * intros HC. destruct (app_write_nocur c false d wc s P HC) as (e0 & X & Hn). rewrite X in E.
@@ -1205,30 +1239,23 @@ Qed.
 (* ------------------------------------------------------------------------------------------ *)
 (* programs                                                                                   *)
 (* ------------------------------------------------------------------------------------------ *)
-Fixpoint ctl_writers_closed (a:ast) (l:list (aop * N)) : Prop :=
-  match l with
-  | [] => True
-  | (o, r) :: l' => implicit_ok a o /\ ctl_writers_closed (astep false a o r) l'
-  end.
-
 Definition obs_prog (c:wcfg) (s:wst) (ops:list wop) : list (aop * N) :=
   combine (map wop_aop ops) (map e_werr_N (fst (wrun c s ops))).
 
 Lemma wrun_G c ops : capok c -> 0 < cap c -> w_negotiated c = false -> forall s fs a,
   Forall op_small ops -> Forall op_not_prepared ops -> GInv c s fs a ->
-  ctl_writers_closed a (obs_prog c s ops) ->
   exists fs', GInv c (snd (wrun c s ops)) fs' (arun false a (obs_prog c s ops)).
 Proof.
-  intros HCap HPos HN. induction ops as [|o r IH]; intros s fs a HS HP G HC.
+  intros HCap HPos HN. induction ops as [|o r IH]; intros s fs a HS HP G.
   - exists fs. exact G.
   - inversion HS as [|? ? S1 S2]; subst. inversion HP as [|? ? P1 P2]; subst.
     unfold obs_prog in *. cbn [wrun] in *.
     pose proof (wstep_G c s fs a o HCap HPos HN S1 P1 G) as ST.
     destruct (wstep c s o) as [e s1] eqn:E1. cbn [fst snd] in ST.
     specialize (IH s1).
-    destruct (wrun c s1 r) as [es s2] eqn:E2. cbn [fst snd map combine arun ctl_writers_closed] in *.
-    destruct HC as [HC1 HC2]. destruct (ST HC1) as (fs1 & G1).
-    apply (IH fs1 _ S2 P2 G1 HC2).
+    destruct (wrun c s1 r) as [es s2] eqn:E2. cbn [fst snd map combine arun] in *.
+    destruct ST as (fs1 & G1).
+    apply (IH fs1 _ S2 P2 G1).
 Qed.
 
 Lemma init_GInv c ks : Forall len4 ks -> GInv c (init_wst c ks None) [] ast0.
@@ -1239,7 +1266,7 @@ Proof.
   - reflexivity.
   - unfold Mode. cbn [init_wst werr]. split; [reflexivity|]. split.
     + constructor; try reflexivity; [exact HK|constructor].
-    + unfold Live. cbn [init_wst cur]. split; [reflexivity|left; reflexivity].
+    + unfold Live. cbn [init_wst cur]. split; reflexivity.
 Qed.
 
 Lemma tag_inj (a b:list frame) : map (fun f : frame => (f, true)) a = map (fun f : frame => (f, true)) b -> a = b.
@@ -1258,24 +1285,24 @@ Qed.
 Lemma cap_pos c : 14 < w_bufsize c -> 0 < cap c.
 Proof. unfold cap, c_maxFrameHeaderSize. lia. Qed.
 
-(* C02, second half: the events carried by the frames on the wire are exactly the messages of
-   the write calls that reported success, in call order.  Second clause: if, according to the
-   abstract writer, no close message went out and no message is left open, the wire ends at a
-   message boundary. *)
+(* C02, second half: the events carried by the frames on the wire are exactly what the abstract
+   writer says was sent: the messages of the write calls that reported success (and of the
+   implicit closes, see Spec/WriterSpec.v), in call order.  No condition on the program.
+   Second clause: if, according to the abstract writer, no close message went out and no message
+   is left open, the wire ends at a message boundary. *)
 Theorem wire_events_and_boundary :
   forall c ks ops fs,
     14 < w_bufsize c -> w_bufsize c < 2^62 -> w_negotiated c = false ->
     Forall (fun k => length k = 4%nat) ks -> Forall op_small ops -> no_prepared ops ->
     let r := wrun c (init_wst c ks None) ops in
     let prog := combine (map wop_aop ops) (map e_werr_N (fst r)) in
-    ctl_writers_closed ast0 prog ->
     Forall wf_frame fs -> wire_of (evs (snd r)) = encode_frames fs ->
     map sent_of_event (events_of fs) = a_out (arun false ast0 prog) /\
     (a_dead (arun false ast0 prog) = false -> a_open (arun false ast0 prog) = None ->
      snd (events_from None fs) = None).
 Proof.
-  intros c ks ops fs HB1 HB2 HN HK HS HP r prog HC Hwf HW.
-  destruct (wrun_G c ops (capok_of c HB2) (cap_pos c HB1) HN _ [] ast0 HS HP (init_GInv c ks HK) HC) as (fs0 & [G1 G2 G3 G4]).
+  intros c ks ops fs HB1 HB2 HN HK HS HP r prog Hwf HW.
+  destruct (wrun_G c ops (capok_of c HB2) (cap_pos c HB1) HN _ [] ast0 HS HP (init_GInv c ks HK)) as (fs0 & [G1 G2 G3 G4]).
   fold r in G1. unfold wire in G1. rewrite HW in G1.
   rewrite (encode_frames_inj fs fs0 Hwf G2 G1). split; [exact G3|].
   intros HD HO. unfold Mode in G4. destruct (werr (snd (wrun c (init_wst c ks None) ops))).
@@ -1291,12 +1318,11 @@ Theorem wire_events_are_the_sent_messages :
     Forall (fun k => length k = 4%nat) ks -> Forall op_small ops -> no_prepared ops ->
     let r := wrun c (init_wst c ks None) ops in
     let prog := combine (map wop_aop ops) (map e_werr_N (fst r)) in
-    ctl_writers_closed ast0 prog ->
     Forall wf_frame fs -> wire_of (evs (snd r)) = encode_frames fs ->
     map sent_of_event (events_of fs) = a_out (arun false ast0 prog).
 Proof.
-  intros c ks ops fs HB1 HB2 HN HK HS HP r prog HC Hwf HW.
-  apply (wire_events_and_boundary c ks ops fs HB1 HB2 HN HK HS HP HC Hwf HW).
+  intros c ks ops fs HB1 HB2 HN HK HS HP r prog Hwf HW.
+  apply (wire_events_and_boundary c ks ops fs HB1 HB2 HN HK HS HP Hwf HW).
 Qed.
 
 (* the same with the frame list of the first half of C02 ([wire_wellformed_negotiated]) *)
@@ -1306,21 +1332,49 @@ Corollary wire_wellformed_and_events :
     Forall (fun k => length k = 4%nat) ks -> Forall op_small ops -> no_prepared ops ->
     let r := wrun c (init_wst c ks None) ops in
     let prog := combine (map wop_aop ops) (map e_werr_N (fst r)) in
-    ctl_writers_closed ast0 prog ->
     exists fs, wire_of (evs (snd r)) = encode_frames fs /\ Forall wf_frame fs /\
       wf_wire (negb (w_server c)) false (map (fun f => (f, true)) fs) = true /\
       map sent_of_event (events_of fs) = a_out (arun false ast0 prog).
 Proof.
-  intros c ks ops HB1 HB2 HN HK HS HP r prog HC.
+  intros c ks ops HB1 HB2 HN HK HS HP r prog.
   destruct (wire_wellformed_negotiated c ks ops HB2 HK HS HP (or_introl HN)) as (fs & A & B & C).
   exists fs. rewrite HN in C. split; [exact A|]. split; [exact B|]. split; [exact C|].
-  apply (wire_events_are_the_sent_messages c ks ops fs HB1 HB2 HN HK HS HP HC B A).
+  apply (wire_events_are_the_sent_messages c ks ops fs HB1 HB2 HN HK HS HP B A).
+Qed.
+
+(* the model's connection state against the abstract writer's flags: the connection is closed
+   for writing exactly when the abstract writer is dead, and otherwise a message writer is open
+   exactly when the abstract writer has a message open *)
+Theorem abstract_flags_exact :
+  forall c ks ops,
+    14 < w_bufsize c -> w_bufsize c < 2^62 -> w_negotiated c = false ->
+    Forall (fun k => length k = 4%nat) ks -> Forall op_small ops -> no_prepared ops ->
+    let r := wrun c (init_wst c ks None) ops in
+    let A := arun false ast0 (combine (map wop_aop ops) (map e_werr_N (fst r))) in
+    (a_dead A = true <-> werr (snd r) <> None) /\
+    (a_dead A = false -> (a_open A = None <-> cur (snd r) = None)).
+Proof.
+  intros c ks ops HB1 HB2 HN HK HS HP r A.
+  destruct (wrun_G c ops (capok_of c HB2) (cap_pos c HB1) HN _ [] ast0 HS HP (init_GInv c ks HK)) as (fs0 & [G1 G2 G3 G4]).
+  unfold obs_prog in G4. fold r A in G4. unfold Mode in G4.
+  destruct (werr (snd r)) as [x|].
+  - split; [split; [discriminate|intros _; exact G4]|]. congruence.
+  - destruct G4 as (D & _ & L). split; [split; [congruence|intros X; contradiction X; reflexivity]|].
+    intros _. unfold Live in L. destruct (cur (snd r)) as [m|].
+    + destruct L as (_ & _ & t & acc & X & _). rewrite X. split; discriminate.
+    + destruct L as [_ X]. rewrite X. split; reflexivity.
 Qed.
 
 (* ------------------------------------------------------------------------------------------ *)
-(* a program-level sufficient condition: NextWriter is only asked for data messages           *)
-(* (WriteMessage and WriteControl may send any control message)                               *)
+(* the former side condition [ctl_writers_closed] and its program-level sufficient condition  *)
+(* (NextWriter is only asked for data messages), kept as corollaries                          *)
 (* ------------------------------------------------------------------------------------------ *)
+Fixpoint ctl_writers_closed (a:ast) (l:list (aop * N)) : Prop :=
+  match l with
+  | [] => True
+  | (o, r) :: l' => implicit_ok a o /\ ctl_writers_closed (astep false a o r) l'
+  end.
+
 Definition data_next (o:wop) : Prop :=
   match o with WNext ty _ => is_control ty = false | _ => True end.
 Definition adata_next (o:aop) : Prop :=
@@ -1363,42 +1417,73 @@ Corollary wire_events_data_next :
     map sent_of_event (events_of fs) =
     a_out (arun false ast0 (combine (map wop_aop ops) (map e_werr_N (fst r)))).
 Proof.
-  intros c ks ops fs HB1 HB2 HN HK HS HP HD r Hwf HW.
-  apply (wire_events_are_the_sent_messages c ks ops fs HB1 HB2 HN HK HS HP); [|exact Hwf|exact HW].
-  apply ctl_closed_of_data; [exact I|apply data_next_prog; exact HD].
+  intros c ks ops fs HB1 HB2 HN HK HS HP _ r Hwf HW.
+  apply (wire_events_are_the_sent_messages c ks ops fs HB1 HB2 HN HK HS HP Hwf HW).
 Qed.
 
 (* ------------------------------------------------------------------------------------------ *)
-(* the side conditions are needed                                                             *)
+(* the corner cases that used to need [ctl_writers_closed]; the remaining side condition      *)
 (* ------------------------------------------------------------------------------------------ *)
 Definition ex_keys : list bytes := [[1;2;3;4];[1;2;3;4];[1;2;3;4];[1;2;3;4]].
 Definition ex_cfg (sv:bool) (n:N) : wcfg := {| w_server := sv; w_bufsize := n; w_pooled := false; w_negotiated := false |}.
 
 (* (1) a Write that overflows the buffer of a control-type writer ends that writer (flushFrame
-   refuses a non-final control frame); the abstract writer only sees the failed Write and still
-   expects the (empty) ping message to be completed by the next NextWriter. *)
+   refuses a non-final control frame, errInvalidControlFrame = 4); the abstract writer abandons
+   the message at the failed Write, so the next NextWriter has nothing to complete: model and
+   abstract writer agree that nothing was sent. *)
 Example ctl_writer_overflow_then_implicit_close :
   let c := ex_cfg false (14 + 125) in
   let ops := [WNext 9 []; WWrite (repeat 7 126) []; WNext 1 []] in
   let r := wrun c (init_wst c ex_keys None) ops in
+  map e_werr_N (fst r) = [0; 4; 0] /\
   wire_of (evs (snd r)) = encode_frames [] /\
-  a_out (arun false ast0 (combine (map wop_aop ops) (map e_werr_N (fst r)))) = [the_sent 9 []].
-Proof. cbv zeta. split; vm_compute; reflexivity. Qed.
+  a_out (arun false ast0 (combine (map wop_aop ops) (map e_werr_N (fst r)))) = [].
+Proof. cbv zeta. split; [|split]; vm_compute; reflexivity. Qed.
 
 (* (2) more than 125 bytes accepted by a control-type writer (the buffer is larger): the implicit
-   close is refused and its error is dropped by NextWriter *)
+   close is refused and its error is dropped by NextWriter; the abstract writer's flush drops a
+   control-type message longer than 125 bytes: again both say that nothing was sent. *)
 Example ctl_writer_too_long_then_implicit_close :
   let c := ex_cfg false (14 + 200) in
   let ops := [WNext 9 []; WWrite (repeat 7 126) []; WNext 1 []] in
   let r := wrun c (init_wst c ex_keys None) ops in
   map e_werr_N (fst r) = [0; 0; 0] /\
   wire_of (evs (snd r)) = encode_frames [] /\
-  a_out (arun false ast0 (combine (map wop_aop ops) (map e_werr_N (fst r)))) = [the_sent 9 (repeat 7 126)].
+  a_out (arun false ast0 (combine (map wop_aop ops) (map e_werr_N (fst r)))) = [].
 Proof. cbv zeta. split; [|split]; vm_compute; reflexivity. Qed.
 
-(* both are excluded by [ctl_writers_closed] *)
-Example ctl_writers_closed_excludes :
+(* (2') the same with at most 125 bytes: the implicit close sends the ping *)
+Example ctl_writer_implicit_close_sends :
+  let c := ex_cfg false (14 + 200) in
+  let ops := [WNext 9 []; WWrite (repeat 7 125) []; WNext 1 []] in
+  let r := wrun c (init_wst c ex_keys None) ops in
+  let fs := map fst (fst (parse_frames (wire_of (evs (snd r))))) in
+  map e_werr_N (fst r) = [0; 0; 0] /\
+  wire_of (evs (snd r)) = encode_frames fs /\
+  map sent_of_event (events_of fs) = [the_sent 9 (repeat 7 125)] /\
+  a_out (arun false ast0 (combine (map wop_aop ops) (map e_werr_N (fst r)))) = [the_sent 9 (repeat 7 125)].
+Proof. cbv zeta. repeat split; vm_compute; reflexivity. Qed.
+
+(* (2'') a close-type writer left to the implicit close of the next NextWriter: the close frame
+   goes out, the NextWriter that sent it reports errCloseSent (1), and so does everything after
+   it.  This is why the abstract writer's flush marks the connection dead whatever the result
+   code of the call: with [a_dead] read off the result code the abstract run would end with
+   [a_dead = false] although its output contains a close message. *)
+Example close_writer_implicit_close :
   let c := ex_cfg false (14 + 125) in
+  let ops := [WNext 8 []; WWrite [3;232] []; WNext 1 []; WMessage 1 [1] [] [] []] in
+  let r := wrun c (init_wst c ex_keys None) ops in
+  let fs := map fst (fst (parse_frames (wire_of (evs (snd r))))) in
+  let A := arun false ast0 (combine (map wop_aop ops) (map e_werr_N (fst r))) in
+  map e_werr_N (fst r) = [0; 0; 1; 1] /\
+  wire_of (evs (snd r)) = encode_frames fs /\
+  map sent_of_event (events_of fs) = [the_sent 8 [3;232]] /\
+  a_out A = [the_sent 8 [3;232]] /\ a_dead A = true /\ a_open A = None.
+Proof. cbv zeta. repeat split; vm_compute; reflexivity. Qed.
+
+(* these programs are outside the former side condition *)
+Example ctl_writers_closed_excludes :
+  let c := ex_cfg false (14 + 200) in
   let ops := [WNext 9 []; WWrite (repeat 7 126) []; WNext 1 []] in
   let r := wrun c (init_wst c ex_keys None) ops in
   ~ ctl_writers_closed ast0 (combine (map wop_aop ops) (map e_werr_N (fst r))).
@@ -1407,7 +1492,7 @@ Proof.
 Qed.
 
 (* (3) with no room in the write buffer (w_bufsize = maxFrameHeaderSize) the copy loop cannot make
-   progress (the model runs out of fuel; the Go code would spin) *)
+   progress (the model runs out of fuel; the Go code would spin): [14 < w_bufsize c] is needed *)
 Example empty_buffer_needed :
   let c := ex_cfg false 14 in
   let ops := [WNext 1 []; WWrite [1;2] []; WClose []] in
@@ -1450,7 +1535,6 @@ Proof.
   - repeat constructor.
   - repeat constructor; unfold small; vm_compute; reflexivity.
   - repeat constructor.
-  - vm_compute. repeat split; intros; try reflexivity; exact I.
   - exists fs. split; [exact A|]. split.
     + apply (f_equal parse_frames) in A. rewrite (parse_frames_encode fs B) in A.
       vm_compute in A. inversion A as [X]. clear - X.
@@ -1462,4 +1546,5 @@ Qed.
 Print Assumptions wire_events_and_boundary.
 Print Assumptions wire_events_are_the_sent_messages.
 Print Assumptions wire_wellformed_and_events.
+Print Assumptions abstract_flags_exact.
 Print Assumptions wire_events_data_next.
